@@ -186,6 +186,37 @@ def run(ctx):
     ok = len(sk) == 1 and B.entails(B.from_expr(sk[0].value), B.A("slave.sel == 0"))
     ctx.ob("A2", WB, "DownConverter", "skip only when no byte of the sub-word is selected", ok, "" if ok else f"{[a.v for a in sk]}")
 
+    # cycle-type translation (decision table over master.cti x last sub-word x master.bte, the constants read from the module):
+    # an incrementing burst stays one, the master's END beat ends the slave burst on its LAST sub-word only, everything else
+    # (classic, constant-address, wrapping) is issued as classic cycles
+    from .. import pyconst
+    consts = pyconst.module_consts(ctx.mod(WB).tree)
+    sc = fx.find(domain="comb", target="slave.cti")
+    need = ("CTI_BURST_NONE", "CTI_BURST_INCREMENTING", "CTI_BURST_END")
+    bad = None
+    if not sc or any(not isinstance(consts.get(k), int) for k in need):
+        bad = "slave.cti is not driven / the CTI_* constants are no longer literals"
+    else:
+        none_, inc_, end_ = (consts[k] for k in need)
+        for cti in range(8):
+            for last in (0, 1):
+                for bte in (0, 1, 2, 3):
+                    env = {"master.cti": cti, "done": last, "count == ratio - 1": last, "master.bte": bte}
+                    try:
+                        got = q.concrete_value(fx, sc, env, consts, default=0)
+                    except q.NotConcrete as ex:
+                        bad = f"slave.cti depends on `{ex}`, which the table does not fix"
+                        break
+                    want = none_ if bte else (inc_ if cti == inc_ else ((end_ if last else inc_) if cti == end_ else none_))
+                    if got != want and bad is None:
+                        bad = f"master.cti={cti:#05b}, {'last' if last else 'not the last'} sub-word, master.bte={bte}: slave.cti = {got:#05b}, expected {want:#05b}"
+                if bad:
+                    break
+            if bad:
+                break
+    ctx.ob("A2", WB, "DownConverter", "cycle type: INCREMENTING kept, END only on the last sub-word, anything else classic", bad is None, bad or "",
+           sc[0].line if sc else 0)
+
     # ================================================================ A3 Cache
     fx = fx_of(ctx, WB, "Cache")
     fail_closed(ctx, fx, "Cache")
